@@ -950,6 +950,12 @@ class Translator:
             pre = ""
             for k2, v2 in callee.opaque_fun.items():
                 pre += " " + v2[0]
+                # the callee's function parameters become parameters of the caller too
+                if v2[0] not in [x[0] for x in self.cur.opaque_fun.values()]:
+                    self.cur.opaque_fun["inherit:" + v2[0]] = v2
+                for k3, v3 in self.cur.opaque_fun.items():
+                    if v3[0] == v2[0]:
+                        self.used_opaque.add(k3)
             for v2 in callee.opaque_params():
                 pre += " " + v2
                 if v2 not in self.cur.opaque.values() and v2 not in self.cur.inherited:
